@@ -201,7 +201,7 @@ class SubclassJSONSerializer:
         for number_of_module_names in range(len(names) - 1, 0, -1):
             try:
                 owner = importlib.import_module(".".join(names[:number_of_module_names]))
-            except ModuleNotFoundError:
+            except ImportError:
                 continue
             for name in names[number_of_module_names:]:
                 owner = getattr(owner, name, None)
@@ -243,7 +243,8 @@ class SubclassJSONSerializer:
 
         try:
             owner = importlib.import_module(module_name)
-        except ModuleNotFoundError as exc:
+        except ImportError as exc:
+            # ModuleNotFoundError, or a module that exists but cannot be imported here
             # the class may be defined inside another class: module_name is then "<module>.<enclosing classes>"
             owner = cls._resolve_enclosing_class(module_name)
             if owner is None:
